@@ -27,7 +27,7 @@ SLICE_OF = ("len(assignment[consumers_for_topic[j]][topic]) == " + S.format("j +
             " assignment[consumers_for_topic[j]][topic][t] == partitions_list[" + S.format("j") + " + t]))")
 
 
-@contract(MOD + ":RangePartitionAssignor.assign", "C14")
+@contract(MOD + ":RangePartitionAssignor.assign", ["C14", "C05"])
 def _(c):
     c.param("cluster", Opaque("Cluster"))
     c.param("members", Opaque("Members"))
@@ -57,3 +57,32 @@ def _(c):
               " partitions_per_consumer <= " + S.format("j + 1") + " - " + S.format("j") + " <= partitions_per_consumer + 1))")
     c.ensures("slices-inside-the-list", "forall(lambda j: implies(0 <= j <= len(consumers_for_topic),"
               " 0 <= " + S.format("j") + " <= len(partitions_list)))")
+    c.replay_fn = lambda model, ob=None: {"script": _RANGE_SCRIPT}
+
+
+# replay: the real RangePartitionAssignor over one topic, 0..13 partitions and 1..6 members (listed in two orders)
+_RANGE_SCRIPT = '''
+from unittest import mock
+from aiokafka.coordinator.assignors.range import RangePartitionAssignor
+bad = []
+for n in range(0, 14):
+    for k in range(1, 7):
+        for rev in (False, True):
+            names = ["m%d" % i for i in range(k)]
+            members = {m: RangePartitionAssignor.metadata(["t"]) for m in (reversed(names) if rev else names)}
+            cluster = mock.MagicMock()
+            cluster.partitions_for_topic = lambda t, n=n: set(range(n))
+            res = RangePartitionAssignor.assign(cluster, members)
+            owned = {m: sorted(p for t, ps in res[m].assignment for p in ps) for m in names}
+            flat = sorted(p for ps in owned.values() for p in ps)
+            loads = [len(owned[m]) for m in names]
+            want = []
+            start = 0
+            for j in range(k):
+                ln = n // k + (1 if j < n % k else 0)
+                want.append(list(range(start, start + ln))); start += ln
+            if flat != list(range(n)) or max(loads) - min(loads) > 1 or [owned[m] for m in names] != want:
+                bad.append((n, k, owned))
+VIOLATED = bool(bad)
+DETAIL = "range assignor, (partitions, members, what each member got): %r" % (bad[:2],) if bad else "ok"
+'''
